@@ -262,3 +262,181 @@ def normalise(n):
         if r is not None:
             out = r
     return out
+
+
+# ---------------------------------------------------------------------------------------------------------------------------------
+# helpers that the reviewed inventory does not know
+
+def _param_subst(body, params, args):
+    """copy of `body` with every reference to a parameter replaced by the corresponding argument expression."""
+    m = {}
+    for p, a in zip(params, args):
+        if p.get('loc'):
+            m[p['loc']] = a
+
+    def fn(x):
+        if x.get('k') == 'DeclRefExpr' and x.get('dloc') in m:
+            a = m[x['dloc']]
+            return dict(a)
+        return None
+    return _replace(body, fn)
+
+
+def _returns(body):
+    return [x for x in _walk_nolambda(body) if x.get('k') == 'ReturnStmt']
+
+
+def _walk_nolambda(n):
+    st = [n]
+    while st:
+        x = st.pop()
+        if isinstance(x, dict):
+            yield x
+            if x.get('k') == 'LambdaExpr' and x is not n:
+                continue
+            st.extend(kids(x))
+
+
+def _single_return_expr(body):
+    if body is None or body.get('k') != 'CompoundStmt':
+        return None
+    st = [c for c in (body.get('c') or ()) if c.get('k') != 'NullStmt']
+    if len(st) == 1 and st[0].get('k') == 'ReturnStmt' and st[0].get('c'):
+        return st[0]['c'][0]
+    return None
+
+
+def _on_this(call):
+    """is the member call made on *this (implicitly or explicitly)?"""
+    if call.get('k') == 'CallExpr':
+        return True
+    me = (call.get('c') or [None])[0]
+    if not isinstance(me, dict) or me.get('k') != 'MemberExpr':
+        return False
+    base = (me.get('c') or [None])[0]
+    return base is None or base.get('k') == 'CXXThisExpr'
+
+
+def inline_helpers(functions, inventory, root):
+    """functions: {id: dict}.  A *new helper* is a function defined in the repository that the reviewed inventory does not list, non-virtual, with a body,
+    called on *this (or free / static).  Its calls are replaced, where the replacement is exact:
+      - `h(args)` anywhere, when the body of h is a single `return E;`            -> E[args]
+      - `h(args);` as a statement, when h returns nothing and has no return        -> { body[args] }
+      - `return h(args);`                                                          -> { body[args] }   (the returns of h are returns of the caller)
+      - `T x = h(args);` when the only return of h is its last statement `return E;` -> { body without it; } T x = E[args];
+    Every function that got a helper inlined keeps the list in d['_inlined']; the helpers are flagged d['_new_helper'] = True."""
+    new = {}
+    for fid, d in functions.items():
+        if fid in inventory or not d.get('body') or not (d.get('loc') or '').startswith(root):
+            continue
+        if d.get('virtual') or d.get('kind') in ('ctor', 'dtor'):
+            continue
+        d['_new_helper'] = True
+        new[fid] = d
+    if not new:
+        return 0
+    # no recursion among helpers
+    def calls_of(d):
+        return {x.get('callee') for x in _walk(d['body']) if x.get('callee') in new}
+    for fid in list(new):
+        if fid in calls_of(new[fid]):
+            del new[fid]
+    count = 0
+
+    def expand_stmt(s, depth=0):
+        """returns a list of statements replacing s, or None."""
+        nonlocal count
+        if depth > 4:
+            return None
+        k = s.get('k')
+        call = None
+        if k in ('CXXMemberCallExpr', 'CallExpr') and s.get('callee') in new:
+            call, mode = s, 'stmt'
+        elif k == 'ReturnStmt' and s.get('c') and s['c'][0].get('k') in ('CXXMemberCallExpr', 'CallExpr') and s['c'][0].get('callee') in new:
+            call, mode = s['c'][0], 'tail'
+        elif k == 'DeclStmt' and len(s.get('c') or ()) == 1 and s['c'][0].get('k') == 'VarDecl' and isinstance(s['c'][0].get('init'), dict):
+            x = s['c'][0]['init']
+            while x.get('k') == 'CXXConstructExpr' and len(x.get('c') or ()) == 1:
+                x = x['c'][0]
+            if x.get('k') in ('CXXMemberCallExpr', 'CallExpr') and x.get('callee') in new:
+                call, mode = x, 'init'
+        if call is None or not _on_this(call):
+            return None
+        h = new[call['callee']]
+        args = (call.get('c') or [])[1:]
+        params = h.get('params') or []
+        if len(args) != len(params):
+            return None
+        body = h['body']
+        rets = _returns(body)
+        if mode == 'stmt':
+            if rets:
+                return None
+            count += 1
+            return [_param_subst(body, params, args)]
+        if mode == 'tail':
+            count += 1
+            return [_param_subst(body, params, args)]
+        if mode == 'init':
+            top = list(body.get('c') or ())
+            if len(rets) != 1 or not top or top[-1] is not rets[0] or not rets[0].get('c'):
+                return None
+            pre = {'k': 'CompoundStmt', 'c': top[:-1], 'loc': body.get('loc')}
+            pre = _param_subst(pre, params, args)
+            e = _param_subst(rets[0]['c'][0], params, args)
+            ns = dict(s)
+            nd = dict(s['c'][0])
+            nd['init'] = e
+            ns['c'] = [nd]
+            count += 1
+            return list(pre.get('c') or ()) + [ns]
+        return None
+
+    def rewrite(n):
+        nonlocal count
+        if not isinstance(n, dict):
+            return n
+        out = dict(n)
+        if n.get('c'):
+            cs = []
+            for c in n['c']:
+                c2 = rewrite(c)
+                if n.get('k') == 'CompoundStmt':
+                    ex = expand_stmt(c2)
+                    if ex is not None:
+                        cs.extend(rewrite(x) for x in ex)
+                        continue
+                cs.append(c2)
+            out['c'] = cs
+        if isinstance(n.get('init'), dict):
+            out['init'] = rewrite(n['init'])
+        if n.get('slots'):
+            sl = {}
+            for key, v in n['slots'].items():
+                v2 = rewrite(v) if isinstance(v, dict) else v
+                if key in ('then', 'else', 'body') and isinstance(v2, dict) and v2.get('k') != 'CompoundStmt':
+                    ex = expand_stmt(v2)
+                    if ex is not None:
+                        v2 = {'k': 'CompoundStmt', 'c': [rewrite(x) for x in ex], 'loc': v2.get('loc')}
+                sl[key] = v2
+            out['slots'] = sl
+        # expression-level: single-return helpers
+        if out.get('k') in ('CXXMemberCallExpr', 'CallExpr') and out.get('callee') in new and _on_this(out):
+            h = new[out['callee']]
+            e = _single_return_expr(h['body'])
+            args = (out.get('c') or [])[1:]
+            if e is not None and len(args) == len(h.get('params') or ()):
+                count += 1
+                r = _param_subst(e, h.get('params') or [], args)
+                return rewrite(r)
+        return out
+    for fid, d in functions.items():
+        if not d.get('body') or not (d.get('loc') or '').startswith(root) or fid in new:
+            continue
+        if not any(x.get('callee') in new for x in _walk(d['body'])):
+            continue
+        before = count
+        d['body'] = rewrite(d['body'])
+        if count > before:
+            d['_inlined'] = sorted({x for x in new if x in {y.get('callee') for y in _walk(d['body'])}} | set(d.get('_inlined') or ()))
+    return count
